@@ -57,7 +57,7 @@ def errorhandler(e: Exception, command: str) -> int:
         elif isinstance(e, OSError):
             mlog.exception(Exception("Unhandled python OSError. This is probably not a Meson bug, "
                            "but an issue with your build environment."))
-            return e.errno or 0
+            return e.errno or 1
         else: # Exception
             msg = 'Unhandled python exception'
             if all(getattr(e, a, None) is not None for a in ['file', 'lineno', 'colno']):
